@@ -679,6 +679,7 @@ func nListInt(v []int) string {
 func main() {
 	cfg := hlib.ParseFlags()
 	s := hlib.NewSuite(cfg, "group")
+	defer s.FinishOnPanic()
 	s.Header = "From QF Require Import Base.Prelude Base.CaseLib Model.Grouper Corr.GrouperCorr.\nLocal Open Scope N_scope.\n"
 	s.CaseType = "group_case"
 	s.CheckFn = "check_group"
